@@ -165,7 +165,31 @@ def lazy_creation(sig, pre, body, rnd, always_close=False):
     return out
 
 
-def family_c07(sig, api, rnd, n_per_type, nfacts, max_stop):
+def def_premise_facts(sig, api, stages, nh, rnd):
+    """facts that make the premise of one non-surjective stage (`... then f(..)!`) true for one assignment of
+    handles to its variables: the request it raises is what is pending across an early stop"""
+    ds = [st for st in (stages or []) if st["concl"]["kind"] == "def"
+          and all(a["kind"] == "set" or a["rel"] in api["insert"] for a in st["prem"])]
+    if not ds:
+        return []
+    st = rnd.choice(ds)
+    val = {}
+    out = []
+    for a in st["prem"]:
+        cols = [a["rel"]] if a["kind"] == "set" else sig.rels[a["rel"]]["cols"]
+        args = []
+        for v, c in zip(a["args"], cols):
+            if nh.get(c, 0) == 0:
+                return []
+            if v not in val:
+                val[v] = rnd.randrange(nh[c])
+            args.append(val[v])
+        if a["kind"] != "set":
+            out.append(step_insert(a["rel"], args))
+    return out
+
+
+def family_c07(sig, api, rnd, n_per_type, nfacts, max_stop, stages=None):
     """direct close vs. close_until stopping at the j-th evaluation, then resumed"""
     if sig.models:
         pre, nh = model_universe(sig, api, rnd)
@@ -173,7 +197,7 @@ def family_c07(sig, api, rnd, n_per_type, nfacts, max_stop):
         more = []
     else:
         pre, nh = prefix(sig, api, n_per_type)
-        facts = random_facts(sig, api, rnd, nh, nfacts)
+        facts = random_facts(sig, api, rnd, nh, nfacts) + def_premise_facts(sig, api, stages, nh, rnd)
         more = random_facts(sig, api, rnd, nh, 2, with_equate=True)
     fin = {"op": "close", "tag": "fam:C07"}
     members = [pre + facts + [dict(fin)]]
